@@ -48,6 +48,11 @@ Edit(p) == /\ p # payload /\ payload' = p
            /\ UNCHANGED <<sigs, junk, file>> /\ Log([a |-> "edit", p |-> p])
 AddJunk == /\ ~junk /\ junk' = TRUE /\ UNCHANGED <<payload, sigs, file>> /\ Log([a |-> "junk"])
 Write   == /\ WithFiles /\ file' = Snapshot /\ UNCHANGED <<payload, sigs, junk>> /\ Log([a |-> "write"])
+(* an attempt to store, at the same path, something that cannot be serialised (too deep, not JSON): the call fails and the   *)
+(* file last written is still there, byte for byte                                                                         *)
+WriteFail == /\ WithFiles /\ file # NoFile
+             /\ file' = (IF MUTANT = "failed_write_truncates" THEN NoFile ELSE file)
+             /\ UNCHANGED <<payload, sigs, junk>> /\ Log([a |-> "write_fail"])
 Load    == /\ WithFiles /\ file # NoFile
            /\ payload' = file.payload /\ junk' = file.junk
            /\ sigs' = IF MUTANT = "lossy_file" THEN [k \in Key |-> IF k = 1 THEN "none" ELSE file.sigs[k]] ELSE file.sigs
@@ -56,7 +61,7 @@ Load    == /\ WithFiles /\ file # NoFile
 Next == /\ Len(hist) < Depth
         /\ \/ \E p \in Payloads : Wrap(p) \/ Edit(p)
            \/ \E k \in Key : Sign(k)
-           \/ AddJunk \/ Write \/ Load
+           \/ AddJunk \/ Write \/ Load \/ WriteFail
 Spec == Init /\ [][Next]_vars
 
 (* ---------------------------------------------------------------------- *)
